@@ -384,6 +384,17 @@ impl Monitor for C07 {
             out.count("trials_with_non_dyadic_values", 1);
         }
         let f32_too = rep % 4 >= 2;
+        // one stream in ten lives entirely in the subnormal range of the scalar under test (finite
+        // input all the same): scalings by powers of two that are exact for normal numbers are not
+        // (only for the views that compare, subtract and divide but never multiply their inputs by a
+        // weight: a product with a weight below 1 cannot be exact in the subnormal range)
+        if rng.chance(1, 10) && matches!(vi, 0 | 1 | 2 | 4 | 5 | 8 | 13 | 14) {
+            let tiny = if f32_too { 2f64.powi(-140) } else { 2f64.powi(-1040) };
+            for x in xs.iter_mut() {
+                *x *= tiny;
+            }
+            out.count("trials_in_the_subnormal_range", 1);
+        }
         out.key(mix(hash_str(&format!("{}{}{}", vi, n, f32_too)), gen::hash_f64s(&xs)));
         if vi == 16 {
             if f32_too {
